@@ -94,6 +94,17 @@ def run(ctx):
             continue
         if not np.allclose(g1, want, rtol=1e-9, atol=1e-9) or not np.allclose(g2, [want, want], rtol=1e-9, atol=1e-9):
             ctx.violation('central difference is not grad + h^2 * cubic coefficient (second order)', 'got %s expected %s' % (g1.tolist(), want.tolist()), c)
+        # the same point given with an integer dtype (array and list) when its coordinates are whole numbers
+        if all(float(v) == int(v) for v in c['x']):
+            for nm, arg in (('integer array', np.array([int(v) for v in c['x']])), ('list of ints', [int(v) for v in c['x']])):
+                try:
+                    gi = central_difference(f, arg, shift=h)
+                except Exception as e:
+                    ctx.violation('central_difference raised %s for a point given as %s' % (excname(e), nm), repr(e)[:200], c)
+                    continue
+                if not np.allclose(np.asarray(gi, dtype=float), want, rtol=1e-9, atol=1e-9):
+                    ctx.violation('central difference at a point given as %s is not grad + h^2 * cubic coefficient' % nm.split()[0],
+                                  'got %s expected %s' % (np.asarray(gi).tolist(), want.tolist()), c)
         # the same polynomial restricted to its first one / two variables (a function of ONE variable has a final axis of length 1)
         for nd in (1, 2):
             rest = np.array(c['x'][nd:], dtype=float)
